@@ -23,7 +23,7 @@ func init() {
 	register(&propDef{
 		ID: "C03",
 		Meta: propMeta{
-			Explanation: "Decides structural necessary conditions (nothing is executed): (R03a) every registered signer of a container format returns its result through SignOpts.SetBinPatch or SetPkcs7 (a patch against, or a blob next to, the original bytes), never a rewritten copy of the input; the frozen table lists the signers whose output is by nature a new document (pgp, cosign, appmanifest, pkcs); (R03b) the CFB allocator makeFreeSectors appends a sector id to its result only if the table entry at that index equals the free marker or the index lies beyond the old end of the table, and every writeSector / writeShortSector call on the writing side targets an allocator result or a sector listed in the MSAT / MSAT-list (the table's own sectors); (R03c) comdoc.DeleteFile frees sector chains only for the directory entries whose name matched and refuses anything that is not a stream, and AddFile deletes exactly the name it adds; (R03d) the ZIP manglers keep existing members by re-indexing: Directory.Mangle and JarDigest.insertSignature hand kept members to Directory.AddFile in directory order and never dump, reopen or re-create them; Directory.AddFile changes nothing of a member but its offset and drops the cached raw header only when the offset changed; (R03e) rewrites act on the metadata as read: DeleteFile frees an entry's chain before blanking the entry, zipslicer decides the presence of a data descriptor from the local header's flag bit 3, and binpatch's in-place path sets the file to exactly Offset+NewSize of the last patch (not a maximum). (R03f) a function that overwrites Directory.DirLoc with a provisional offset and returns the directory stores the original offset (a load taken before the overwrite) back on every path to a success return; (R03g) every uint8(len(x)) is covered by a comparison of that same byte length with a constant that fits, or x was re-sliced to such a constant (module-wide); (R03h) the length signdeb.Sign removes for an existing _gpg member, when computed from ar.Header.Size, goes through a rounding to even. (R03i) the loop of lib/fruit/xar that rewrites heap offsets in the table of contents cannot go round an entry for any reason other than that entry's offset being absent or unparsable. (R03h) the span removed for the old _gpg member is computed from ar.Header.Size rounded up to even, or - when it is measured from stream positions - made even somewhere in its derivation; (R03m) no map store in a function reachable from a signer's Sign / Transform / Fixup or a Transformer's Apply / GetReader goes into a map that may be a package-level variable of the module, directly or as the result of a helper (depth 2): what is added for one artifact does not turn up in the next; (R03l) every site of lib/comdoc that chooses between the two allocation tables uses the same cutoff predicate (C18 R18e), so a stream is freed in the table it lives in; (R03j) in signdeb.Sign the value handed to ar.NewReader is the readercounter itself, or the counter behind io.LimitReader / io.TeeReader / io.NopCloser, with nothing buffering in between; (R03k) ZIP local header name and extra are read from the local header (C17 R17r), so member sizes and the ranges removed when rewriting are those of the file.",
+			Explanation: "Decides structural necessary conditions (nothing is executed): (R03a) every registered signer of a container format returns its result through SignOpts.SetBinPatch or SetPkcs7 (a patch against, or a blob next to, the original bytes), never a rewritten copy of the input; the frozen table lists the signers whose output is by nature a new document (pgp, cosign, appmanifest, pkcs); (R03b) the CFB allocator makeFreeSectors appends a sector id to its result only if the table entry at that index equals the free marker or the index lies beyond the old end of the table, and every writeSector / writeShortSector call on the writing side targets an allocator result or a sector listed in the MSAT / MSAT-list (the table's own sectors); (R03c) comdoc.DeleteFile frees sector chains only for the directory entries whose name matched and refuses anything that is not a stream, and AddFile deletes exactly the name it adds; (R03d) the ZIP manglers keep existing members by re-indexing: Directory.Mangle and JarDigest.insertSignature hand kept members to Directory.AddFile in directory order and never dump, reopen or re-create them; Directory.AddFile changes nothing of a member but its offset and drops the cached raw header only when the offset changed; (R03e) rewrites act on the metadata as read: DeleteFile frees an entry's chain before blanking the entry, zipslicer decides the presence of a data descriptor from the local header's flag bit 3, and binpatch's in-place path sets the file to exactly Offset+NewSize of the last patch (not a maximum). (R03f) a function that overwrites Directory.DirLoc with a provisional offset and returns the directory stores the original offset (a load taken before the overwrite) back on every path to a success return; (R03g) every uint8(len(x)) is covered by a comparison of that same byte length with a constant that fits, or x was re-sliced to such a constant (module-wide); (R03h) the length signdeb.Sign removes for an existing _gpg member, when computed from ar.Header.Size, goes through a rounding to even. (R03i) the loop of lib/fruit/xar that rewrites heap offsets in the table of contents cannot go round an entry for any reason other than that entry's offset being absent or unparsable. (R03h) the span removed for the old _gpg member is computed from ar.Header.Size rounded up to even, or - when it is measured from stream positions - made even somewhere in its derivation; (R03m) no map store in a function reachable from a signer's Sign / Transform / Fixup or a Transformer's Apply / GetReader goes into a map that may be a package-level variable of the module, directly or as the result of a helper (depth 2): what is added for one artifact does not turn up in the next; (R03l) every site of lib/comdoc that chooses between the two allocation tables uses the same cutoff predicate (C18 R18e), so a stream is freed in the table it lives in; (R03j) in signdeb.Sign the value handed to ar.NewReader is the readercounter itself, or the counter behind io.LimitReader / io.TeeReader / io.NopCloser, with nothing buffering in between; (R03k) ZIP local header name and extra are read from the local header (C17 R17r), so member sizes and the ranges removed when rewriting are those of the file. (R03n) the inline OpenPGP packet header written by MergeSignature uses the RFC 4880 length boundaries 192 and 8384 (C01 R01j), so that the merged document stays readable.",
 			NotDecided:  "that every payload item of an output has exactly its input bytes (C12 decides that patches apply exactly, C17/C18 the container bookkeeping); well-formedness of the output for an independent reader; the refusal of inputs relic cannot rewrite safely in general (only the refusals named above).",
 			Assumptions: []string{"a binary patch leaves every byte outside its regions untouched (decided separately by C12)"},
 		},
@@ -41,6 +41,7 @@ var c03WholeOutput = map[string]string{
 }
 
 func runC03(c *Ctx) {
+	defer round7C03(c)
 	c.Rule("R03a", "container signers return a patch or a detached blob, never a rewritten copy", 14)
 	c.Rule("R03b", "the CFB allocator hands out only free or new sectors and the writers write only where it says", 6)
 	c.Rule("R03c", "deleting a CFB stream frees only that stream's chain and refuses storages", 3)
